@@ -314,6 +314,11 @@ func (sc *scenario) body() string {
 	if op == "rblk" {
 		return sc.rawBody()
 	}
+	if op == "rcmp" {
+		// facts and raw data side by side
+		raw := strings.SplitN(sc.rawBody(), " ", 4)[3] // drop "rblk mode recipe"
+		return fmt.Sprintf("rcmp %s %s %s # %s", sc.mode, sc.r.String(), sc.facts, raw)
+	}
 	return fmt.Sprintf("%s %s %s %s", op, sc.mode, sc.r.String(), sc.facts)
 }
 
@@ -689,7 +694,7 @@ var scMemo = map[string]*scenario{}
 
 // scenarioOf rebuilds (or fetches) the scenario of the case whose tokens start at tok[0] = op.
 func scenarioOf(tok []string) (*scenario, string) {
-	if len(tok) < 3 || (tok[0] != "blk" && tok[0] != "api" && tok[0] != "rblk") {
+	if len(tok) < 3 || (tok[0] != "blk" && tok[0] != "api" && tok[0] != "rblk" && tok[0] != "rcmp") {
 		return nil, "bad-op"
 	}
 	r, ok := parseRecipe(tok[2])
@@ -736,6 +741,9 @@ func (P) Exec(line string) string {
 	}
 	if sc.op == "api" {
 		return sc.api()
+	}
+	if sc.op == "rcmp" {
+		return "same" // the line is what this recipe yields (checked above); Lean compares the two descriptions
 	}
 	return sc.run()
 }
@@ -818,6 +826,13 @@ func Lines(seed uint64, thorough bool) []string {
 // rawWanted: a third of the deliveries go out in raw form (all of them in the thorough tier for small candidates);
 // big candidates stay in fact form (the script walkers of the sibling models recurse per opcode).
 func rawWanted(R *core.Rand, thorough bool, sc *scenario) bool {
+	if !rawOk(sc) {
+		return false
+	}
+	return thorough && R.Chance(1, 2) || R.Chance(1, 3)
+}
+
+func rawOk(sc *scenario) bool {
 	if sc.cand.SerializeSize() > 40000 || len(sc.cand.Transactions) == 0 {
 		return false
 	}
@@ -826,7 +841,7 @@ func rawWanted(R *core.Rand, thorough bool, sc *scenario) bool {
 			return false // not serializable unambiguously
 		}
 	}
-	return thorough && R.Chance(1, 2) || R.Chance(1, 3)
+	return true
 }
 
 // contextSensitive: mutators about rules that read the candidate's own ancestors (times, heights, utxo set).
@@ -921,6 +936,12 @@ func generate(R *core.Rand, thorough bool, emit func(class string, nontrivial bo
 						sc.op = "api"
 						scMemo["api:"+r.String()] = sc
 						emit("api/"+m.name, true, sc.line())
+						if m.name != "manytx" && rawOk(sc) && (thorough || R.Chance(1, 4)) {
+							sc2 := *sc
+							sc2.op = "rcmp"
+							scMemo["rcmp:"+r.String()] = &sc2
+							emit("rcmp/"+m.name, true, sc2.line())
+						}
 						if m.name == "manytx" {
 							stressPool = append(stressPool, sc.body())
 						}
